@@ -18,7 +18,7 @@ replays every candidate violation twice in fresh interpreters, handles the
 known-findings file and writes /verif/evidence/<ID>.json.
 '''
 
-import sys, os, json, time, argparse, importlib, hashlib, subprocess, multiprocessing, traceback
+import sys, os, signal, json, time, argparse, importlib, hashlib, subprocess, multiprocessing, traceback
 
 from . import core
 
@@ -43,6 +43,7 @@ def _worker(args):
 
 
 def _serve(conn, pid, tier, seed):
+    os.setpgrp()  # own process group: processes forked by the code under test (parallel.fork) are killed with the worker
     while True:
         try:
             spec = conn.recv()
@@ -108,6 +109,10 @@ def pool_map(pid, specs, tier, seed, procs, remaining):
                 yield sp, packed
     finally:
         for c, (p, spec) in workers.items():
+            try:
+                os.killpg(p.pid, signal.SIGKILL)   # the worker and whatever it forked (a child blocked on a lock of a killed parent never exits)
+            except (ProcessLookupError, PermissionError):
+                pass
             if p.is_alive():
                 p.terminate()
 
@@ -203,7 +208,10 @@ def main():
             if packed is None:
                 capped = True
                 break
-            merged.merge(core.ShardResult.unpack(packed))
+            r_ = core.ShardResult.unpack(packed)
+            if os.environ.get('VERIF_TIMING'):
+                print('TIMING {:7.1f}s at {:6.1f}s {}'.format(r_.wall, time.time() - t0, json.dumps(spec)[:160]), file=sys.stderr)
+            merged.merge(r_)
             done += 1
     if merged.errors:
         for e in merged.errors[:5]:
